@@ -52,8 +52,29 @@ def write_sources(family, version, subdir=None):
     return os.path.join(d, next(iter(srcs)))
 
 
+POOL_PEER = None
+
+
+def install_pool_peer():
+    """
+    The simulated peer behind the pool's remote location hints (families with peer_pages()): installed as the
+    process-wide urllib opener in the template, inherited by every forked run. Local files keep going through the
+    stock FileHandler. Fault queues (SimPeer.inject) are set by the executor around single operations.
+    """
+    global POOL_PEER
+    from sim.simio import SimPeer
+    pages = {}
+    for fam in FAMILIES.values():
+        if hasattr(fam, 'peer_pages'):
+            pages.update(fam.peer_pages())
+    POOL_PEER = SimPeer(pages)
+    POOL_PEER.install()
+    return POOL_PEER
+
+
 def build_pool(master_seed, names=None, versions=('1.0', '1.1'), build=True, corpus=False):
     entries = {}
+    install_pool_peer()
     for name in names or FAMILIES:
         fam = FAMILIES[name]
         for version in versions:
